@@ -89,8 +89,8 @@ pub fn run_prop(prop: &Prop, tier: Tier, only_part: Option<&str>) -> i32 {
   std::thread::spawn(move || {
     loop {
       std::thread::sleep(Duration::from_millis(250));
-      let w = WATCH.lock().unwrap();
-      for slot in w.iter().flatten() {
+      let w: Vec<WatchSlot> = WATCH.lock().unwrap().clone();
+      for slot in w.iter().filter_map(|s| s.lock().unwrap().clone()) {
         if slot.0.elapsed() > run_budget {
           let path = write_replay(
             watchdog_id,
